@@ -77,6 +77,9 @@ func hdTypeOf(env *types.GlobalEnvironment, v value.Value) (types.Type, bool) {
 		return types.False{}, true
 	case v.IsUndefined():
 		return nil, false
+	case v.IsInlineSymbol():
+		// a thrown / returned symbol is judged as its literal type (`! :stop_iteration`)
+		return types.NewSymbolLiteral(v.AsInlineSymbol().String()), true
 	}
 	name := v.Class().Name
 	t, ok := types.NameToTypeOk(name, env)
